@@ -181,6 +181,20 @@ Theorem C13_http_rotates_over_members : forall g g' o, http_pick g = (g', o) -> 
 Proof. exact http_pick_member. Qed.
 Print Assumptions C13_http_rotates_over_members.
 
+(* round-robin fairness: over k * n consecutive requests each of the n members is chosen exactly k times
+   (pxyNames duplicate-free and backed by createFuncs, counter not negative) *)
+Theorem C13_http_round_robin_fair : forall g k x,
+  NoDup (g_lns g) -> (forall y, In y (g_lns g) -> In y (g_funcs g)) -> 0 <= g_idx g -> In x (g_lns g) ->
+  length (filter (is_to x) (picks g (k * length (g_lns g)))) = k.
+Proof. exact http_fair. Qed.
+Print Assumptions C13_http_round_robin_fair.
+
+Example C13_example_rotation :
+  picks {| g_name := 1; g_key := 1; g_par := [1; 2; 3]; g_port := 0; g_real := 0; g_lns := [10; 20; 30];
+           g_funcs := [30; 20; 10]; g_idx := 4; g_closed := false; g_ep := true; g_wk := false; g_gen := 1 |} 6 =
+  [CTo 30; CTo 10; CTo 20; CTo 30; CTo 10; CTo 20].
+Proof. vm_compute. reflexivity. Qed.
+
 (* ---- the atomicity the model assumes, read from today's source (reflective, gen/GenGroupLocks.v) ---- *)
 (* each of the six join / leave functions has exactly one controller critical section, and every access
    to the groups table, every call into the group and every operation on the group's endpoint lies
